@@ -453,3 +453,52 @@ impl<U: Subscription, Subject: Subscription + SubjectSize> Subscription for Coun
   }
   fn is_closed(&self) -> bool { self.subscription.is_closed() }
 }
+
+// ---------------------------------------------------------------- C05
+pub struct LockedFlatten<O, Item> { observer_data: MutRc<Option<O>>, _hint: TypeHint<Item> }
+impl<Item, Err, O, Inner> Observer<Inner, Err> for LockedFlatten<O, Item>
+where
+  O: Observer<Item, Err>,
+  Inner: Observable<Item, Err, MutRc<Option<O>>>,
+{
+  fn next(&mut self, value: Inner) {
+    let guard = self.observer_data.rc_deref_mut();
+    if guard.is_some() {
+      value.actual_subscribe(self.observer_data.clone());
+    }
+  }
+  fn error(self, err: Err) { self.observer_data.error(err) }
+  fn complete(self) { self.observer_data.complete() }
+  fn is_finished(&self) -> bool { self.observer_data.is_finished() }
+}
+
+// ---------------------------------------------------------------- C19
+pub struct RerunTask<Args> { func: fn(&Args) -> (), args: Option<Args> }
+impl<Args: Unpin> std::future::Future for RerunTask<Args> {
+  type Output = ();
+  fn poll(self: std::pin::Pin<&mut Self>, _: &mut std::task::Context<'_>) -> std::task::Poll<()> {
+    let this = self.get_mut();
+    let args = this.args.as_ref().unwrap();
+    std::task::Poll::Ready((this.func)(args))
+  }
+}
+pub struct HandleInfo2 { keep_running: bool, value: Option<()> }
+pub struct UnlockedRemote<Fut> { handle_info: MutArc<HandleInfo2>, future: Fut }
+impl<Fut: std::future::Future<Output = ()> + Unpin> std::future::Future for UnlockedRemote<Fut> {
+  type Output = ();
+  fn poll(self: std::pin::Pin<&mut Self>, cx: &mut std::task::Context<'_>) -> std::task::Poll<()> {
+    let this = self.get_mut();
+    let keep = this.handle_info.rc_deref().keep_running;
+    if !keep {
+      return std::task::Poll::Ready(());
+    }
+    // the guard is gone: unsubscribe() can return while this poll runs
+    match std::pin::Pin::new(&mut this.future).poll(cx) {
+      std::task::Poll::Ready(v) => {
+        this.handle_info.rc_deref_mut().value = Some(v);
+        std::task::Poll::Ready(())
+      }
+      std::task::Poll::Pending => std::task::Poll::Pending,
+    }
+  }
+}
